@@ -202,3 +202,149 @@ Proof.
         split; [exact B|]. split; [exact C|exact D].
 Qed.
 End Write.
+
+(* ---- one step of the three-way joint iterator ---------------------------------- *)
+Lemma Pos_Qw t w w' c p : Pos (hp w) (getv w t) c p -> Qw w w' -> Pos (hp w') (getv w' t) c p.
+Proof. intros P (E1 & _ & E3). rewrite E1. eapply Pos_Q; [apply E3|auto]. Qed.
+Lemma Qw_dim w w' u : Qw w w' -> dim (getv w' u) = dim (getv w u).
+Proof. intros (_ & _ & E3). destruct (E3 u) as ((_ & _ & D) & _). auto. Qed.
+Lemma Qw_lookup w w' u k :
+  Qw w w' -> isnull (hp w) (getv w u) k = false -> lookup k (vals (getv w' u)) = lookup k (vals (getv w u)).
+Proof. intros (_ & _ & E3) N. destruct (E3 u) as ((_ & C & _) & _). auto. Qed.
+Lemma Qw_peek w w' u k : Qw w w' -> peek (hp w') (getv w' u) k = peek (hp w) (getv w u) k.
+Proof. intros (E1 & _ & E3). rewrite E1. apply Q_peek. apply E3. Qed.
+
+Section Joint3.
+Variable t : nat.
+Variable n : Z.
+
+(* facts about one operand at the selected index i *)
+Lemma op_facts w c V p i (d : bool) :
+  G t w -> CPos t n w c V p -> 0 <= p -> p <= i ->
+  (d = true -> cand c = Some i) -> (d = false -> forall k, cand c = Some k -> i < k) ->
+  (forall x, p <= x < i -> V x = 0) /\ jval (if d then ci_get w c else None) = V i /\
+  (d = true -> (if d then ci_get w c else None) <> None) /\
+  (d = false -> (if d then ci_get w c else None) = None).
+Proof.
+  intros HG HC Hp Hi H1 H2. destruct d.
+  - destruct (CPos_cand t n w c V p i HG HC Hp (H1 eq_refl)) as (X & Y & Z1).
+    rewrite Y. simpl. split; [exact Z1|]. split; [auto|]. split; [intros _; discriminate|intro; discriminate].
+  - simpl. assert (ZZ : forall x, p <= x <= i -> V x = 0).
+    { destruct (cand c) as [k|] eqn:E.
+      + pose proof (H2 eq_refl k eq_refl) as Hk.
+        destruct (CPos_cand t n w c V p k HG HC Hp E) as (X & Y & Z1). intros x Hx. apply Z1. lia.
+      + pose proof (CPos_none t n w c V p HC E) as Z1. intros x Hx. apply Z1. lia. }
+    split; [intros x Hx; apply ZZ; lia|]. split; [symmetry; apply ZZ; lia|].
+    split; [intro; discriminate|auto].
+Qed.
+Lemma op_range w c V p i : G t w -> CPos t n w c V p -> 0 <= p -> cand c = Some i -> p <= i < n.
+Proof. intros HG HC Hp E. apply (CPos_cand t n w c V p i HG HC Hp E). Qed.
+
+Definition s1_of (w : world) (c : option Z) (d : bool) : option loc :=
+  if d then match c with Some k => lookup k (vals (getv w t)) | None => None end else None.
+Lemma r_facts w c p i (d : bool) :
+  G t w -> dim (getv w t) = n -> Pos (hp w) (getv w t) c p -> p <= i ->
+  (d = true -> c = Some i) -> (d = false -> forall k, c = Some k -> i < k) ->
+  (forall x, p <= x < i -> peek (hp w) (getv w t) x = 0) /\
+  (d = true -> exists l, s1_of w c d = Some l /\ lookup i (vals (getv w t)) = Some l /\
+                         isnull (hp w) (getv w t) i = false) /\
+  (d = false -> s1_of w c d = None /\ peek (hp w) (getv w t) i = 0).
+Proof.
+  intros HG Hn HP Hi H1 H2. unfold s1_of. destruct d.
+  - rewrite (H1 eq_refl) in *. simpl in HP. destruct HP as (P1 & P2 & P3).
+    destruct (nonnull_lookup _ _ _ P2) as (l & L & _).
+    split; [exact P3|]. split; [intros _; exists l; auto|intro; discriminate].
+  - assert (ZZ : forall x, p <= x <= i -> peek (hp w) (getv w t) x = 0).
+    { destruct c as [k|]; simpl in HP.
+      + pose proof (H2 eq_refl k eq_refl) as Hk. destruct HP as (P1 & P2 & P3).
+        intros x Hx. apply P3. lia.
+      + intros x Hx. apply HP. lia. }
+    split; [intros x Hx; apply ZZ; lia|]. split; [intro; discriminate|].
+    intros _. split; [auto|apply ZZ; lia].
+Qed.
+Lemma r_range w p i :
+  G t w -> dim (getv w t) = n -> 0 <= p -> Pos (hp w) (getv w t) (Some i) p -> p <= i < n.
+Proof.
+  intros (GI & _) Hn Hp (P1 & P2 & _). destruct (nonnull_lookup _ _ _ P2) as (l & L & _).
+  destruct (GI t) as (_ & _ & H3 & H4 & _). apply H3 in L. apply H4 in L. lia.
+Qed.
+
+Variables A B : Z -> Z.
+Definition J3 (w : world) (j : joint3) (p : Z) : Prop :=
+  G t w /\ dim (getv w t) = n /\ 0 <= p /\
+  Pos (hp w) (getv w t) (k1 j) p /\ CPos t n w (k2 j) A p /\ CPos t n w (k3 j) B p.
+
+Lemma joint3_next_spec w j p :
+  J3 w j p ->
+  exists w' j', joint3_next w t j = Some (w', j') /\ Qw w w' /\ G t w' /\
+    ((kok j' = false /\
+      forall i, p <= i -> peek (hp w) (getv w t) i = 0 /\ A i = 0 /\ B i = 0) \/
+     (kok j' = true /\ p <= kidx j' < n /\
+      (forall i, p <= i < kidx j' -> peek (hp w) (getv w t) i = 0 /\ A i = 0 /\ B i = 0) /\
+      jval (ks2 j') = A (kidx j') /\ jval (ks3 j') = B (kidx j') /\
+      (forall l, ks1 j' = Some l -> lookup (kidx j') (vals (getv w' t)) = Some l) /\
+      J3 w' j' (kidx j' + 1))).
+Proof.
+  intros (HG & Hn & Hp & P1 & C2 & C3).
+  rewrite joint3_next_eq.
+  destruct (sel3 (k1 j) (cand (k2 j)) (cand (k3 j)) (kidx j)) as [[[i d1] d2] d3] eqn:S.
+  apply sel3_spec in S. destruct S as (S1 & S1' & S2 & S2' & S3 & S3' & SO).
+  cbv zeta. fold (s1_of w (k1 j) d1).
+  destruct (orb (orb d1 d2) d3) eqn:Any.
+  - (* some iterator delivers *)
+    assert (Hi : p <= i < n).
+    { destruct d1; [rewrite (S1 eq_refl) in P1; eapply r_range; eauto|].
+      destruct d2; [eapply op_range; [| exact C2| |]; eauto|].
+      destruct d3; [eapply op_range; [| exact C3| |]; eauto|]. discriminate. }
+    destruct (r_facts w (k1 j) p i d1 HG Hn P1 (proj1 Hi) S1 S1') as (R1 & R2 & R3).
+    destruct (op_facts w (k2 j) A p i d2 HG C2 Hp (proj1 Hi) S2 S2') as (A1 & A2 & A3 & A4).
+    destruct (op_facts w (k3 j) B p i d3 HG C3 Hp (proj1 Hi) S3 S3') as (B1 & B2 & B3 & B4).
+    set (s1 := s1_of w (k1 j) d1) in *.
+    set (s2 := if d2 then ci_get w (k2 j) else None) in *.
+    set (s3 := if d3 then ci_get w (k3 j) else None) in *.
+    (* advance the receiver's iterator *)
+    destruct (adv1_spec t w (k1 j) p i s1 HG P1 (proj1 Hi)) as (w1 & c1 & E1 & Q1 & I1 & P1').
+    { intro NE. apply S1. destruct d1; [reflexivity|exfalso; apply NE; apply (proj1 (R3 eq_refl))]. }
+    { intro E. apply S1'. destruct d1; [|reflexivity]. destruct (R2 eq_refl) as (l & X & _). congruence. }
+    rewrite E1.
+    assert (G1 : G t w1) by (eapply G_Qw; eauto).
+    destruct (advc_spec t n w1 (k2 j) A p i s2 G1 (CPos_Qw t n w w1 _ _ _ C2 Q1) (proj1 Hi))
+      as (w2 & c2 & E2 & Q2 & I2 & C2').
+    { intro NE. apply S2. destruct d2; [reflexivity|exfalso; apply NE; apply (A4 eq_refl)]. }
+    { intro E. apply S2'. destruct d2; [|reflexivity]. exfalso. apply (A3 eq_refl E). }
+    rewrite E2.
+    assert (G2 : G t w2) by (eapply G_Qw; eauto).
+    assert (Q02 : Qw w w2) by (eapply Qw_trans; eauto).
+    destruct (advc_spec t n w2 (k3 j) B p i s3 G2 (CPos_Qw t n w w2 _ _ _ C3 Q02) (proj1 Hi))
+      as (w3 & c3 & E3 & Q3 & I3 & C3').
+    { intro NE. apply S3. destruct d3; [reflexivity|exfalso; apply NE; apply (B4 eq_refl)]. }
+    { intro E. apply S3'. destruct d3; [|reflexivity]. exfalso. apply (B3 eq_refl E). }
+    rewrite E3.
+    assert (G3 : G t w3) by (eapply G_Qw; eauto).
+    assert (Q03 : Qw w w3) by (eapply Qw_trans; eauto).
+    assert (Q13 : Qw w1 w3) by (eapply Qw_trans; eauto).
+    eexists. eexists. split; [reflexivity|]. split; [exact Q03|]. split; [exact G3|].
+    right. cbn [kok kidx ks1 ks2 ks3 k1 k2 k3].
+    split.
+    { destruct d1; [destruct (R2 eq_refl) as (l & X & _); rewrite X; auto|].
+      destruct d2; [destruct s2; [destruct s1; auto|exfalso; apply A3; auto]|].
+      destruct d3; [|discriminate]. destruct s3; [destruct s1; destruct s2; auto|exfalso; apply B3; auto]. }
+    split; [exact Hi|]. split; [intros x Hx; auto|]. split; [exact A2|]. split; [exact B2|].
+    split.
+    { intros l El. destruct d1.
+      - destruct (R2 eq_refl) as (l' & X & L & N). rewrite (Qw_lookup w w3 t i Q03 N). congruence.
+      - destruct (R3 eq_refl) as (X & _). congruence. }
+    unfold J3. cbn [k1 k2 k3]. split; [exact G3|]. split; [rewrite (Qw_dim w w3 t Q03); auto|].
+    split; [lia|]. split; [eapply Pos_Qw; eauto|]. split; [eapply CPos_Qw; eauto|exact C3'].
+  - (* nothing left *)
+    apply orb_false_iff in Any. destruct Any as [Any D3]. apply orb_false_iff in Any. destruct Any as [D1 D2].
+    subst d1 d2 d3. rewrite orb_false_iff in SO. destruct SO as [SO E3']. rewrite orb_false_iff in SO.
+    destruct SO as [E1' E2'].
+    assert (K1 : k1 j = None) by (destruct (k1 j); auto; discriminate).
+    assert (K2 : cand (k2 j) = None) by (destruct (cand (k2 j)); auto; discriminate).
+    assert (K3 : cand (k3 j) = None) by (destruct (cand (k3 j)); auto; discriminate).
+    unfold s1_of, adv1, advc. eexists. eexists. split; [reflexivity|]. split; [apply Qw_refl|]. split; [exact HG|].
+    left. cbn [kok]. split; auto. intros x Hx. rewrite K1 in P1. simpl in P1.
+    split; [auto|]. split; [eapply CPos_none; eauto|eapply CPos_none; eauto].
+Qed.
+End Joint3.
